@@ -44,17 +44,17 @@ def env():
     class PList(Base):
         __tablename__ = "c38_plist"
         id = Column(Integer, primary_key=True)
-        coll = relationship(Child, collection_class=list)
+        coll = relationship(Child, collection_class=list, backref="lparent")
 
     class PSet(Base):
         __tablename__ = "c38_pset"
         id = Column(Integer, primary_key=True)
-        coll = relationship(Child, collection_class=set)
+        coll = relationship(Child, collection_class=set, backref="sparent")
 
     class PDict(Base):
         __tablename__ = "c38_pdict"
         id = Column(Integer, primary_key=True)
-        coll = relationship(Child, collection_class=attribute_keyed_dict("name"))
+        coll = relationship(Child, collection_class=attribute_keyed_dict("name"), backref="dparent")
 
     log = []
     for cls in (PList, PSet, PDict):
@@ -176,6 +176,31 @@ def apply_list_op(target, op, items, plain):
     return None
 
 
+def has_dups(objs):
+    ids = [id(o) for o in objs]
+    return len(set(ids)) != len(ids)
+
+
+def multi_event(log):
+    """some item was the subject of more than one event in this operation (moved between
+    positions / keys): the scalar side then reflects the LAST event, not membership"""
+    ids = [id(v) for _, v in log]
+    return len(set(ids)) != len(ids)
+
+
+def owner_state_ok(parent, coll, items, members, backref):
+    """the attribute still hands out this very collection, and every item's many-to-one side
+    points at the parent exactly when the item is a member.  Returns None or a description."""
+    if parent.coll is not coll:
+        return "parent attribute returns a different collection object"
+    mids = {id(o) for o in members}
+    for i, it in enumerate(items):
+        has = getattr(it, backref) is parent
+        if has != (id(it) in mids):
+            return "item %d: %s is %s but membership is %s" % (i, backref, "parent" if has else "not parent", id(it) in mids)
+    return None
+
+
 def accounting_ok(old, new, log):
     """old + appended - removed == new as multisets of object identities, never negative"""
     c = collections.Counter(id(o) for o in old)
@@ -217,6 +242,7 @@ def run_list_sequence(init, ops):
     log = E["log"]
     del log[:]
     trace, req, fails = [], [], []
+    tainted = has_dups(coll)  # duplicates make the scalar side of the backref ambiguous
     for k, op in enumerate(ops):
         req.append(list_op_token(op))
         old = list(coll)
@@ -249,6 +275,12 @@ def run_list_sequence(init, ops):
             what = "return"
         elif not accounting_ok(old, new, evs):
             what = "events"
+        tainted = tainted or has_dups(new) or what is not None or multi_event(evs)
+        if what is None and not tainted:
+            why = owner_state_ok(p, coll, items, new, "lparent")
+            if why:
+                what = "owner-state"
+                pexc = (pexc or "") + " | " + why
         if what:
             detail = "old=%s op=%s -> instrumented %s %s events %s ; list %s %s" % (
                 [idx_of(idx, o) for o in old], list_op_token(op), rtok, [idx_of(idx, o) for o in new], ev_tok(idx, evs),
@@ -501,6 +533,11 @@ def run_set_sequence(init, ops):
             what = "return"
         elif not accounting_ok(old, new, evs) or len(evs) != len(old ^ new):
             what = "events"
+        if what is None:
+            why = owner_state_ok(p, coll, items, new, "sparent")
+            if why:
+                what = "owner-state"
+                pexc = (pexc or "") + " | " + why
         if what:
             detail = "old=%s op=%s -> instrumented %s %s events %s ; set %s %s" % (
                 sorted(idx_of(idx, o) for o in old), op, ("E:" + exc) if exc else "ok", sorted(idx_of(idx, o) for o in new),
@@ -694,6 +731,7 @@ def run_dict_sequence(init, ops):
     log = E["log"]
     del log[:]
     trace, req, fails = [], [], []
+    tainted = has_dups(coll.values())
     for kk, op in enumerate(ops):
         req.append(dict_op_token(op))
         old = dict(coll)
@@ -730,6 +768,12 @@ def run_dict_sequence(init, ops):
             what = "return"
         elif not accounting_ok(list(old.values()), list(new.values()), evs):
             what = "events"
+        tainted = tainted or has_dups(new.values()) or what is not None or multi_event(evs)
+        if what is None and not tainted:
+            why = owner_state_ok(p, coll, items, list(new.values()), "dparent")
+            if why:
+                what = "owner-state"
+                pexc = (pexc or "") + " | " + why
         if what:
             detail = "old=%s op=%s -> instrumented %s %s events %s ; dict %s %s" % (
                 dict_tok(old, idx), dict_op_token(op), rtok, dict_tok(new, idx), ev_tok(idx, evs),
